@@ -14,6 +14,7 @@ import (
 	"net/url"
 	"reflect"
 	"sort"
+	"strings"
 
 	"github.com/getkin/kin-openapi/openapi3"
 	"github.com/getkin/kin-openapi/openapi3filter"
@@ -117,14 +118,23 @@ func deepSerialise(q url.Values, prefix string, v any) {
 }
 
 func deepRandom(r *Rng) C05Deep {
-	c := C05Deep{Name: Pick(r, []string{"filter", "q", "f"}), Schema: deepGen(r, 2)}
+	c := C05Deep{Name: Pick(r, []string{"filter", "q", "f", "page.opts", "a+b", "f(x)", "p*"}), Schema: deepGen(r, 2)}
 	if r.Chance(85) {
 		c.Value = deepValue(r, c.Schema)
 	}
 	if r.Chance(70) {
 		c.Noise = map[string][]string{}
 		for k := 0; k < 1+r.Intn(3); k++ {
-			key := Pick(r, []string{c.Name + "s[a]", c.Name + "x", "pre" + c.Name + "[a]", "other[" + c.Name + "][a]", c.Name + "s[id][0]", "page", c.Name + "2[b]"})
+			// names that a pattern built from the unquoted name would also match
+			alt1 := strings.NewReplacer(".", "_", "+", "", "(", "", ")", "", "*", "").Replace(c.Name)
+			alt2 := strings.ReplaceAll(c.Name, ".", "X")
+			if alt1 == c.Name {
+				alt1 = "zz" + c.Name
+			}
+			if alt2 == c.Name {
+				alt2 = "yy" + c.Name
+			}
+			key := Pick(r, []string{alt1 + "[a]", alt2 + "[id][0]", c.Name + "s[a]", c.Name + "x", "pre" + c.Name + "[a]", "other[" + c.Name + "][a]", c.Name + "s[id][0]", "page", c.Name + "2[b]"})
 			c.Noise[key] = []string{Pick(r, []string{"zz", "1", "true"})}
 		}
 		if r.Chance(50) {
@@ -368,6 +378,31 @@ func runComp(c *C05Comp) (sig, detail string) {
 	}
 	if verr != nil {
 		return "composition:valid-parameter-rejected", verr.Error()
+	}
+	return "", ""
+}
+
+
+// ---- a required parameter of the path item next to an operation parameter whose name differs by case only ----
+func runCaseVariants() (sig, detail string) {
+	for _, in := range []string{"query", "cookie"} {
+		item := &openapi3.PathItem{Parameters: openapi3.Parameters{{Value: &openapi3.Parameter{Name: "Limit", In: in, Required: true, Schema: openapi3.NewIntegerSchema().NewRef()}}}}
+		op := openapi3.NewOperation()
+		op.Parameters = openapi3.Parameters{{Value: &openapi3.Parameter{Name: "limit", In: in, Schema: openapi3.NewIntegerSchema().NewRef()}}}
+		op.Responses = openapi3.NewResponses()
+		item.Get = op
+		doc := &openapi3.T{OpenAPI: "3.0.0", Info: &openapi3.Info{Title: "t", Version: "1"}, Paths: openapi3.NewPaths()}
+		route := &routers.Route{Spec: doc, Path: "/p", PathItem: item, Method: "GET", Operation: op}
+		req := httptest.NewRequest("GET", "/p", nil)
+		if in == "query" {
+			req.URL.RawQuery = "limit=5"
+		} else {
+			req.AddCookie(&http.Cookie{Name: "limit", Value: "5"})
+		}
+		err := openapi3filter.ValidateRequest(context.Background(), &openapi3filter.RequestValidationInput{Request: req, Route: route})
+		if err == nil || !strings.Contains(err.Error(), "Limit") {
+			return "case-variant:required-parameter-not-reported-missing:" + in, fmt.Sprint(err)
+		}
 	}
 	return "", ""
 }
